@@ -127,7 +127,13 @@ def index():
         cells = []
         for r in outc["runs"]:
             tag = r["tier"] + ("/" + r["only"] if r.get("only") else "")
-            verdict = "CAUGHT" if r["exit"] == 1 and r["violations"] else ("missed" if r["exit"] == 0 else f"exit {r['exit']}")
+            if r["exit"] == 1 and r["violations"]:
+                verdict = "CAUGHT"
+            elif r["exit"] == 0 and r.get("only") == "deductive":
+                verdict = (f"undecided ({r['undecided']} obligations: the changed function left the accepted subset)" if r.get("undecided")
+                           else "silent (the changed code is not under a contract that states this)")
+            else:
+                verdict = "missed" if r["exit"] == 0 else f"exit {r['exit']}"
             first = ""
             if r["first_violations"]:
                 first = " (" + r["first_violations"][0].split("replay=")[-1].split("/")[-1][:70] + ")"
@@ -137,6 +143,7 @@ def index():
     with open(os.path.join(SEEDED, "INDEX.md"), "w") as f:
         f.write("# Seeded property-breaking changes (written by independent sub-agents; confirmed: tests pass, demo fails)\n\n"
                 "Apply with `git -C /repo apply seeded/<name>/patch.diff`, run `./check <property>`, undo with `git -C /repo checkout -- .`.\n\n"
+                "`quick/deductive` = the deductive part alone (named obligation refuted = CAUGHT); `quick` = the whole registered quick command.\n\n"
                 "| name | property | change | needs | outcome of ./check <property> on the changed tree |\n|---|---|---|---|---|\n")
         f.write("\n".join(rows) + "\n")
     print(f"{len(rows)} seeded changes indexed")
